@@ -68,7 +68,7 @@ def check_ref(rep, crate, prop):
 
 
 MODEL_TRAITS = {'arrival::ArrivalBound': None, 'wcet::JobCostModel': 'C14', 'demand::RequestBound': 'C16',
-                'demand::AggregateRequestBound': 'C16'}
+                'demand::AggregateRequestBound': 'C16', 'supply::SupplyBound': 'C09'}
 INVENTORY_EXEMPT = (
     # reported by STEP-NONZERO as a known finding, never pinned as a reference
     '<arrival::arrival_curve_prefix::ArrivalCurvePrefix as arrival::ArrivalBound>::steps_iter',
